@@ -749,6 +749,11 @@ func (nfs *Nfs) NFSPROC3_RENAME(args nfstypes.RENAME3args) nfstypes.RENAME3res {
 					done = true
 					break
 				}
+				if to.Kind == nfstypes.NF3DIR {
+					// undo the link the replaced directory's ".." held on its parent
+					dipto.Nlink = dipto.Nlink - 1
+					dipto.WriteInode(op.Atxn)
+				}
 				nfs.doDecLink(op, to)
 				success = true
 			} else { // retry
